@@ -216,64 +216,113 @@ end XcmModel.C02
 
 /-! ## btls (xcm_tp_btls.c): what XCM's TLS byte-stream layer does with OpenSSL's answers
 
-`written` is the concatenation of the ranges `SSL_write` reported as taken, `delivered` the concatenation
-of what `SSL_read` returned.  That OpenSSL itself transports `written` unchanged to the peer's
-`SSL_read` is the environment assumption K-openssl-stream, probed end to end by `sys_tls`. -/
+`accepted` is the concatenation of the ranges xcm_send reported as accepted, `written` the concatenation of the ranges
+`SSL_write` reported as taken, `pend` what XCM retains of a send that SSL_write could not complete, `delivered` the
+concatenation of what `SSL_read` returned.  That OpenSSL transports `written` unchanged to the peer's `SSL_read` -
+provided an SSL_write that could not complete is repeated with the same bytes, which `C02_btls_retry_discipline`
+establishes - is the environment assumption K-openssl-stream, probed end to end by sys_stream. -/
 namespace XcmModel.C02btls
 open XcmModel XcmModel.Btls
 
-/-- for len > 0 xcm_send returns 1..len and exactly that prefix of this call's buffer was handed to OpenSSL -/
-theorem C02_btls_rc_range (s : St) (buf : Bytes) (h : HAns) (w : WAns) (k : Nat) (p : Bytes) (hl : 0 < buf.length)
-    (hr : (send s buf h w).2.1 = .n k p) :
-    1 ≤ k ∧ k ≤ buf.length ∧ (send s buf h w).1.written = s.written ++ buf.take k := by
+/-- in every reachable state: what was accepted is exactly what was handed to OpenSSL followed by what is retained -
+nothing accepted is lost, duplicated or reordered inside XCM; the counters are the lengths of these streams -/
+theorem C02_btls_accepted_is_written_plus_retained (auth : Bool) (ops : List Op) :
+    let s := run { auth := auth } ops
+    s.accepted = s.written ++ s.pend ∧ s.cnt.fromApp = s.accepted.length ∧ s.cnt.toLower = s.written.length ∧
+    s.cnt.toApp = s.delivered.length ∧ s.cnt.fromLower = s.delivered.length := by
+  have h := run_inv ops (init_inv auth)
+  exact ⟨h.acc, h.cntW.1, h.cntW.2, h.cntD.1, h.cntD.2⟩
+
+/-- for len > 0 xcm_send returns 1..len and exactly that prefix of this call's buffer is added to the accepted stream;
+a call that fails (EAGAIN included) adds nothing -/
+theorem C02_btls_send_accepts_prefix (s : St) (buf : Bytes) (h : HAns) (ws : List WAns) (hl : 0 < buf.length) :
+    (∀ k p, (send s buf h ws).2.1 = .n k p → 1 ≤ k ∧ k ≤ buf.length ∧ (send s buf h ws).1.accepted = s.accepted ++ buf.take k) ∧
+    (∀ e, (send s buf h ws).2.1 = .err e → (send s buf h ws).1.accepted = s.accepted) := by
   have hd := tfh_data s h
-  revert hr
   unfold send
   generalize tryFinishHandshake s h = s1 at hd
   simp only
   split
-  · intro hr; cases hr
-  · intro hr; cases hr
-  · intro hr; cases hr
+  · exact ⟨(by intro k p hr; cases hr), fun e _ => hd.2.2.2.1⟩
+  · exact ⟨(by intro k p hr; cases hr), fun e _ => hd.2.2.2.1⟩
+  · exact ⟨(by intro k p hr; cases hr), fun e _ => hd.2.2.2.1⟩
   · split
     · omega
-    · cases w with
-      | n a =>
-        intro hr
-        simp only [Res.n.injEq] at hr
-        obtain ⟨hk, _⟩ := hr
-        subst hk
-        refine ⟨by omega, by omega, ?_⟩
-        simp only [hd.1]
-      | zero => intro hr; cases hr
-      | ev e => simp only; split <;> (intro hr; cases hr)
-
-/-- a call that failed (EAGAIN included) handed nothing of its buffer to OpenSSL -/
-theorem C02_btls_failed_call_no_trace (s : St) (buf : Bytes) (h : HAns) (w : WAns) (e : Nat)
-    (hr : (send s buf h w).2.1 = .err e) : (send s buf h w).1.written = s.written := by
-  have hd := tfh_data s h
-  revert hr
-  unfold send
-  generalize tryFinishHandshake s h = s1 at hd
-  simp only
-  split
-  · intro _; exact hd.1
-  · intro _; exact hd.1
-  · intro _; exact hd.1
-  · split
-    · intro hr; cases hr
-    · cases w with
-      | n a => intro hr; cases hr
-      | zero => intro _; exact hd.1
-      | ev ev =>
+    · have fc := flush_core (s1.pend.length + 1) s1 ws
+      cases hf : flushPending (s1.pend.length + 1) s1 ws with
+      | mk sf rest3 =>
+        obtain ⟨fr, rest, nf⟩ := rest3
+        rw [hf] at fc
+        have hacc : sf.accepted = s.accepted := fc.1.accepted.trans hd.2.2.2.1
         simp only
-        have f := (frame_reset s1).trans (frame_pse { s1 with sslCondition := 0, sslWants := 0 } SENDABLE ev)
-        split <;> (intro _; exact f.written.trans hd.1)
+        cases fr with
+        | some r =>
+          have he := flush_res_err (s1.pend.length + 1) s1 ws r (by rw [hf])
+          obtain ⟨e0, he0⟩ := he
+          subst he0
+          exact ⟨(by intro k p hr; cases hr), fun e _ => hacc⟩
+        | none =>
+          simp only
+          cases hw : nextW rest with
+          | mk w _ =>
+            cases w with
+            | n a =>
+              refine ⟨fun k p hr => ?_, (by intro e hr; cases hr)⟩
+              simp only [Res.n.injEq] at hr
+              obtain ⟨hk, _⟩ := hr
+              subst hk
+              exact ⟨by omega, by omega, by simp only [hacc]⟩
+            | zero => exact ⟨(by intro k p hr; cases hr), fun e _ => hacc⟩
+            | ev ev =>
+              simp only
+              have f := (frame_reset sf).trans (frame_pse { sf with sslCondition := 0, sslWants := 0 } SENDABLE ev)
+              split
+              · exact ⟨(by intro k p hr; cases hr), fun e _ => f.accepted.trans hacc⟩
+              · exact ⟨(by intro k p hr; cases hr), fun e _ => f.accepted.trans hacc⟩
+              · refine ⟨fun k p hr => ?_, (by intro e hr; cases hr)⟩
+                simp only [Res.n.injEq] at hr
+                obtain ⟨hk, _⟩ := hr
+                subst hk
+                refine ⟨by simp only [MAX_PENDING]; omega, by omega, ?_⟩
+                rw [f.accepted, hacc]
 
-/-- xcm_receive never returns more than `capacity`; what it returns is exactly what is appended to the delivered stream -/
-theorem C02_btls_capacity (s : St) (cap : Nat) (h : HAns) (r : RAns) (k : Nat) (p : Bytes)
-    (hr : (receive s cap h r).2.1 = .n k p) :
-    k ≤ cap ∧ p.length = k ∧ (receive s cap h r).1.delivered = s.delivered ++ p := by
+/-- **retry discipline**: OpenSSL is handed a new buffer only when XCM retains nothing - whenever an SSL_write could not
+complete, the next SSL_write calls re-offer exactly the retained bytes (what OpenSSL demands), whatever the application
+offers in its next xcm_send -/
+theorem C02_btls_retry_discipline (fuel : Nat) (s : St) (ws : List WAns) :
+    (flushPending fuel s ws).2.1 = none → s.pend.length < fuel → (flushPending fuel s ws).1.pend = [] :=
+  fun h hl => ((flush_core fuel s ws).2 h hl).1
+
+/-- the SSL_read step never returns more than `capacity`; what it returns is exactly what is appended to the delivered
+stream, and the accepted/written/retained output streams are untouched -/
+theorem readStep_capacity (sf : St) (cap : Nat) (r : RAns) (k : Nat) (p : Bytes) (hr : (readStep sf cap r).2 = .n k p) :
+    k ≤ cap ∧ p.length = k ∧ (readStep sf cap r).1.delivered = sf.delivered ++ p := by
+  revert hr
+  unfold readStep
+  cases r with
+  | data bs =>
+    simp only
+    split
+    · intro hr; cases hr
+    · intro hr
+      simp only [Res.n.injEq] at hr
+      obtain ⟨hk, hp⟩ := hr
+      subst hk hp
+      refine ⟨?_, rfl, rfl⟩
+      simp only [List.length_take]; omega
+  | ev ev =>
+    simp only
+    have f := (frame_reset sf).trans (frame_pse { sf with sslCondition := 0, sslWants := 0 } RECEIVABLE ev)
+    split
+    · intro hr; cases hr; exact ⟨Nat.zero_le _, rfl, by rw [List.append_nil]; exact f.delivered⟩
+    · intro hr; cases hr
+    · intro hr; cases hr
+
+/-- xcm_receive never returns more than `capacity`; what it returns is exactly what is appended to the delivered stream
+(the flush of retained output that precedes the read moves no received data) -/
+theorem C02_btls_capacity (s : St) (cap : Nat) (h : HAns) (ws : List WAns) (r : RAns) (k : Nat) (p : Bytes)
+    (hr : (receive s cap h ws r).2.1 = .n k p) :
+    k ≤ cap ∧ p.length = k ∧ (receive s cap h ws r).1.delivered = s.delivered ++ p := by
   have hd := tfh_data s h
   revert hr
   unfold receive
@@ -283,31 +332,55 @@ theorem C02_btls_capacity (s : St) (cap : Nat) (h : HAns) (r : RAns) (k : Nat) (
   · intro hr; cases hr
   · intro hr; cases hr; exact ⟨Nat.zero_le _, rfl, by simp [hd.2.1]⟩
   · intro hr; cases hr
-  · cases r with
-    | data bs =>
+  · have fc := flush_core (s1.pend.length + 1) s1 ws
+    cases hf : flushPending (s1.pend.length + 1) s1 ws with
+    | mk sf rest3 =>
+      obtain ⟨fr, rest, nf⟩ := rest3
+      rw [hf] at fc
+      have hdel : sf.delivered = s.delivered := fc.1.delivered.trans hd.2.1
       simp only
       split
       · intro hr; cases hr
+      · intro hr; cases hr; exact ⟨Nat.zero_le _, rfl, by simp [hdel]⟩
       · intro hr
-        simp only [Res.n.injEq] at hr
-        obtain ⟨hk, hp⟩ := hr
-        subst hk hp
-        refine ⟨?_, rfl, by simp only [hd.2.1]⟩
-        simp only [List.length_take]; omega
-    | ev ev =>
-      simp only
-      have f := (frame_reset s1).trans (frame_pse { s1 with sslCondition := 0, sslWants := 0 } RECEIVABLE ev)
-      split
-      · intro hr; cases hr; exact ⟨Nat.zero_le _, rfl, by rw [List.append_nil]; exact f.delivered.trans hd.2.1⟩
-      · intro hr; cases hr
-      · intro hr; cases hr
+        have := readStep_capacity sf cap r k p hr
+        exact ⟨this.1, this.2.1, by rw [this.2.2, hdel]⟩
 
-/-- the four byte counters equal the lengths of the two streams in every reachable state -/
-theorem C02_btls_counters (auth : Bool) (ops : List Op) :
+/-- xcm_receive leaves the accepted output stream alone: its flush only moves retained bytes to OpenSSL -/
+theorem C02_btls_receive_keeps_accepted (auth : Bool) (ops : List Op) (cap : Nat) (h : HAns) (ws : List WAns) (r : RAns) :
     let s := run { auth := auth } ops
-    s.cnt.fromApp = s.written.length ∧ s.cnt.toLower = s.written.length ∧
-    s.cnt.toApp = s.delivered.length ∧ s.cnt.fromLower = s.delivered.length := by
-  have h := run_inv ops (init_inv auth)
-  exact ⟨h.cntW.1, h.cntW.2, h.cntD.1, h.cntD.2⟩
+    let s' := (receive s cap h ws r).1
+    s'.accepted = s.accepted ∧ s'.accepted = s'.written ++ s'.pend := by
+  intro s s'
+  have hi : Inv s := run_inv ops (init_inv auth)
+  have hi' : Inv s' := receive_inv hi cap h ws r
+  refine ⟨?_, hi'.acc⟩
+  have hd := tfh_data s h
+  show (receive s cap h ws r).1.accepted = s.accepted
+  unfold receive
+  generalize tryFinishHandshake s h = s1 at hd
+  simp only
+  split
+  · exact hd.2.2.2.1
+  · exact hd.2.2.2.1
+  · exact hd.2.2.2.1
+  · have fc := flush_core (s1.pend.length + 1) s1 ws
+    cases hf : flushPending (s1.pend.length + 1) s1 ws with
+    | mk sf rest3 =>
+      obtain ⟨fr, rest, nf⟩ := rest3
+      rw [hf] at fc
+      have hacc : sf.accepted = s.accepted := fc.1.accepted.trans hd.2.2.2.1
+      simp only
+      split
+      · exact hacc
+      · exact hacc
+      · show (readStep sf cap r).1.accepted = s.accepted
+        unfold readStep
+        cases r with
+        | data bs => simp only; split <;> exact hacc
+        | ev ev =>
+          simp only
+          have f := (frame_reset sf).trans (frame_pse { sf with sslCondition := 0, sslWants := 0 } RECEIVABLE ev)
+          split <;> exact f.accepted.trans hacc
 
 end XcmModel.C02btls
